@@ -892,6 +892,8 @@ class _Simu(_IObserver, _params.Updatable, ABC):
             self.__indexMesh = self.__NindexMesh
             self.__listMesh.append(mesh)
             self.__mesh = mesh
+            # simulation will look for modifications of the new mesh too
+            mesh._Add_observer(self)
 
             # New connectivity invalidates the geometry-derived caches.
             # This cannot live in `Need_Update`, which fires on every Newton
@@ -963,6 +965,7 @@ class _Simu(_IObserver, _params.Updatable, ABC):
             mesh = Load_Mesh(Folder.Join(self.folder, mesh))
 
         self.__mesh = mesh
+        mesh._Add_observer(self)
 
         # switching to another mesh in the history changes the connectivity
         clear_cached_computed_values(self)
